@@ -451,6 +451,131 @@ func (t *c02tr) eff(list bool, top bool) string {
 	return b.String()
 }
 
+// directed module sets for scoping rules that need more than two modules or a second tree of the same shape
+func c02probes(c *core.Ctx) {
+	load := func(files map[string]string, main string) (*meta.Module, error) {
+		var ops []source.Opener
+		for n, t := range files {
+			ops = append(ops, source.Named(n, strings.NewReader(t)))
+		}
+		var m *meta.Module
+		err := safeDo(func() error {
+			var e error
+			m, e = parser.LoadModule(source.Any(ops...), main)
+			return e
+		})
+		return m, err
+	}
+	fail := func(name, what string, files map[string]string) {
+		c.Violation(core.Replay{Kind: "property-failure", Class: "probe-" + name, Summary: name + ": " + what, Input: files})
+	}
+	// (1) a leafref with an absolute path inside a grouping of an imported module points into the tree of the module
+	//     that uses the grouping, also when the imported module has a node at the same path with another type
+	{
+		files := map[string]string{
+			"lib": `module lib { yang-version 1.1; namespace "urn:lib"; prefix lib; revision 2020-01-01;
+  typedef lvl { type leafref { path "/settings/level"; } }
+  container settings { leaf level { type string; } leaf-list levels { type string; } }
+  grouping lg { leaf direct { type leafref { path "/settings/level"; } } leaf viatd { type lvl; } leaf-list many { type leafref { path "/settings/levels"; } }
+    leaf rel { type leafref { path "../direct"; } } }
+}`,
+			"app": `module app { yang-version 1.1; namespace "urn:app"; prefix app; import lib { prefix lib; } revision 2020-01-01;
+  container settings { leaf level { type enumeration { enum low; enum high; } } leaf-list levels { type int16; } }
+  container one { uses lib:lg; }
+  container two { container deep { uses lib:lg; } }
+}`}
+		c.Evaluations++
+		m, err := load(files, "app")
+		if err != nil {
+			fail("absolute leafref in an imported grouping", "valid module set does not load: "+err.Error(), files)
+		} else if perr := safeDo(func() error {
+			for _, at := range []string{"one", "two/deep"} {
+				for leaf, want := range map[string]string{"direct": "enumeration", "viatd": "enumeration", "many": "int16-list", "rel": "enumeration"} {
+					d, _ := meta.Find(m, at+"/"+leaf).(meta.Leafable)
+					if d == nil {
+						fail("absolute leafref in an imported grouping", at+"/"+leaf+" is not in the compiled tree", files)
+						continue
+					}
+					got := d.Type().Resolve().Format().String()
+					if leaf == "rel" {
+						got = d.Type().Resolve().Resolve().Format().String()
+					}
+					if got != want {
+						fail("absolute leafref in an imported grouping", fmt.Sprintf("%s/%s resolves to a %s, the node its path names in the using module's tree is a %s", at, leaf, got, want), files)
+					}
+				}
+				if d, _ := meta.Find(m, at+"/direct").(meta.Leafable); d != nil {
+					var es []string
+					for _, e := range d.Type().Resolve().Enum() {
+						es = append(es, e.Label)
+					}
+					if strings.Join(es, ",") != "low,high" {
+						fail("absolute leafref in an imported grouping", fmt.Sprintf("%s/direct: the target type offers the enums %v, want [low high]", at, es), files)
+					}
+				}
+			}
+			return nil
+		}); perr != nil {
+			fail("absolute leafref in an imported grouping", perr.Error(), files)
+		}
+	}
+	// (2) identities of a module that is imported by an imported module are linked to their bases, whatever the
+	//     module in between defines
+	for _, middle := range []string{"", "identity unrelated;"} {
+		files := map[string]string{
+			"a": `module a { yang-version 1.1; namespace "urn:a"; prefix a; import b { prefix b; } revision 2020-01-01;
+  leaf proto { type b:proto; } container c { uses b:bg; }
+}`,
+			"b": `module b { yang-version 1.1; namespace "urn:b"; prefix b; import c { prefix c; } revision 2020-01-01; ` + middle + `
+  typedef proto { type identityref { base c:transport; } }
+  grouping bg { leaf p2 { type identityref { base c:transport; } } }
+}`,
+			"c": `module c { yang-version 1.1; namespace "urn:c"; prefix c; revision 2020-01-01;
+  identity transport; identity tcp { base transport; } identity udp { base transport; } identity tls { base tcp; }
+}`}
+		c.Evaluations++
+		name := "identities two imports away (middle module: " + map[bool]string{true: "no identity", false: "one identity"}[middle == ""] + ")"
+		m, err := load(files, "a")
+		if err != nil {
+			fail(name, "valid module set does not load: "+err.Error(), files)
+			continue
+		}
+		if perr := safeDo(func() error {
+			for _, lf := range []string{"proto", "c/p2"} {
+				d, _ := meta.Find(m, lf).(meta.Leafable)
+				if d == nil {
+					fail(name, lf+" is not in the compiled tree", files)
+					continue
+				}
+				got := map[string]bool{}
+				var below func(id *meta.Identity)
+				below = func(id *meta.Identity) {
+					for _, x := range id.DerivedDirect() {
+						if !got[x.Ident()] {
+							got[x.Ident()] = true
+							below(x)
+						}
+					}
+				}
+				for _, b := range d.Type().Base() {
+					below(b)
+				}
+				var gl []string
+				for n := range got {
+					gl = append(gl, n)
+				}
+				sort.Strings(gl)
+				if strings.Join(gl, ",") != "tcp,tls,udp" {
+					fail(name, fmt.Sprintf("identityref %s accepts the identities %v derived from c:transport, the module c defines [tcp tls udp]", lf, gl), files)
+				}
+			}
+			return nil
+		}); perr != nil {
+			fail(name, perr.Error(), files)
+		}
+	}
+}
+
 func C02(c *core.Ctx) {
 	c.Rule = "generated module sets (main module + submodule + imported module): typedef chains of depth 1–4 over int32/uint8/int64 (ranges), string (length, pattern), enumeration and bits (explicit, missing, zero and negative values; derived subsets), decimal64 (fraction-digits, range), boolean, identityref, leafref, unions of those, each level optionally stating default and units; typedefs at module level, in the submodule, in the imported module (prefixed) and local to a container (also shadowing a module-level name); leaves and leaf-lists of every level, with and without restrictions, default and units of their own, at module level, in containers with local typedefs, and in a grouping used 1–3 times; for every leaf of the compiled tree the effective type read through the accessors (format, ranges, lengths, patterns, enum values, bit positions, union members, leafref path and target format, identityref bases, fraction-digits, default, units) compared with the Lean derivation. non-trivial = leaf whose type is a typedef chain of depth ≥2 or a union; distinct by (module set, leaf)"
 	c.Assumptions = append(c.Assumptions,
@@ -460,6 +585,7 @@ func C02(c *core.Ctx) {
 	if c.Thorough() {
 		c.LeanChecker("YangVerif.Props.C02")
 	}
+	c02probes(c)
 	rng := core.NewRng(c.Seed)
 	var lines []string
 	type pend struct {
